@@ -2573,6 +2573,11 @@ class BaseDocReader(LogMixin):
         instanceObject.designLocation = designLocation or {}
         for glyphElement in instanceElement.findall(".glyphs/glyph"):
             self.readGlyphElement(glyphElement, instanceObject)
+        if self.documentObject.formatTuple < (5, 0):
+            # Up to format 4 the writer emits <kerning/> and <info/> exactly when
+            # the flags are set, so their absence means False.
+            instanceObject.kerning = instanceElement.find("kerning") is not None
+            instanceObject.info = instanceElement.find("info") is not None
         for infoElement in instanceElement.findall("info"):
             self.readInfoElement(infoElement, instanceObject)
         for libElement in instanceElement.findall("lib"):
